@@ -1,5 +1,5 @@
 INIT Init
 NEXT Next
-CONSTANTS TolRound = 20 TolAzi = 1000 TolScale = 20 RegionMax = 900000 SnCoin = 1000 DupSep = 1000000 TolLat = 10
+CONSTANTS TolRound = 20 TolAzi = 1000 TolScale = 20 RegionMax = 900000 SnCoin = 1000 DupSep = 1000000 OvlMargin = 1000 TolLat = 10
 POSTCONDITION Summary
 CHECK_DEADLOCK FALSE
